@@ -161,9 +161,13 @@ def meshgrid(*axes, batch=False):
 
     tensors = []
     for n in range(N):
-        cores = [torch.ones(1, len(ax), 1).to(device) for ax in axes]
+        # A floating-point axis keeps its own precision; integer axes become floats of the default type
+        dtype = torch.get_default_dtype()
+        if isinstance(axes[n], torch.Tensor) and axes[n].is_floating_point():
+            dtype = axes[n].dtype
+        cores = [torch.ones(1, len(ax), 1, dtype=dtype).to(device) for ax in axes]
         if isinstance(axes[n], torch.Tensor):
-            cores[n] = axes[n].type(torch.get_default_dtype())
+            cores[n] = axes[n].type(dtype)
         else:
             cores[n] = torch.tensor(axes[n].type(torch.get_default_dtype()))
         cores[n] = cores[n][None, :, None].to(device)
